@@ -11,6 +11,21 @@ VARIABLE l
 Init == l = 1
 IsPanic(o) == "panic" \in DOMAIN o
 
+\* the error's message (Display): the decimal numbers in it, in reading order, and where it first mentions columns / values
+RECURSIVE NumsFrom(_, _, _), FirstAt(_, _, _)
+NumsFrom(m, i, cur) ==
+  IF i > Len(m) THEN (IF cur = "" THEN <<>> ELSE <<cur>>)
+  ELSE IF Ch(m, i) \in Digits THEN NumsFrom(m, i + 1, cur \o Ch(m, i))
+  ELSE (IF cur = "" THEN <<>> ELSE <<cur>>) \o NumsFrom(m, i + 1, "")
+FirstAt(m, sub, i) == IF i + Len(sub) - 1 > Len(m) THEN 0 ELSE IF SubSeq(m, i, i + Len(sub) - 1) = sub THEN i ELSE FirstAt(m, sub, i + 1)
+\* a message that names columns and values and gives two numbers must give them in the order it names them
+MessageMisreports(msg, cl, vl) ==
+  LET ns == NumsFrom(msg, 1, "")
+      pc == FirstAt(msg, "olumn", 1)
+      pv == FirstAt(msg, "alue", 1)
+  IN Len(ns) = 2 /\ pc # 0 /\ pv # 0 /\ cl # vl /\
+     ns # (IF pc < pv THEN <<NatToStr(cl), NatToStr(vl)>> ELSE <<NatToStr(vl), NatToStr(cl)>>)
+
 ResKeys(a, c, s) ==
   LET d == Demand(a, c) IN
   CASE d.k = "ok" -> IF ~IsPanic(s.res) /\ "ok" \in DOMAIN s.res.r /\ s.res.r.ok THEN {} ELSE {"C10/result/accepting_call_not_ok"}
@@ -18,6 +33,7 @@ ResKeys(a, c, s) ==
          IF IsPanic(s.res) \/ "ok" \notin DOMAIN s.res.r \/ s.res.r.ok THEN {"C10/result/mismatch_accepted"}
          ELSE (IF s.res.r.col_len = d.col_len /\ s.res.r.val_len = d.val_len THEN {} ELSE {"C10/result/error_counts_wrong"})
               \cup (IF s.unchanged THEN {} ELSE {"C10/result/rejected_call_left_a_trace"})
+              \cup (IF "msg" \in DOMAIN s.res.r /\ MessageMisreports(s.res.r.msg, d.col_len, d.val_len) THEN {"C10/result/error_message_gives_the_counts_in_the_other_order"} ELSE {})
     [] d.k = "panic" -> IF IsPanic(s.res) THEN {} ELSE {"C10/result/mismatch_accepted_by_panic_variant"}
     [] OTHER -> IF IsPanic(s.res) THEN {"C10/result/unexpected_panic"} ELSE {}
 
